@@ -108,20 +108,14 @@ Definition first_id (exts : list ext) : Z :=
   match exts with [] => NO_NEXT_EXT | (id, _) :: _ => id end.
 
 (* Layout written by the add_ext! macro for the extensions that were added, in order.
-   Each block is written as [NO_NEXT_EXT; len; payload] at `offset`, and the id is stored at
-   `next_ext_pos`, which is 1 (byte 1 of the fixed header) for the first block.  After a block
-   the macro sets `next_ext_pos = offset + 1`: that is the position of the block's LENGTH
-   byte, not of its `next` byte (`offset`).  So the id of a following extension overwrites the
-   length byte of its predecessor, and the predecessor's `next` byte stays NO_NEXT_EXT.
-   (With at most one extension added this is the BEP-29 layout; with two it is not: see
-   Header_Proofs.serialize_both_ext and the refutation theorems in Props/C11.v.) *)
-Fixpoint ser_chain_bytes (exts : list ext) : list Z :=
+   Each block is written as [NO_NEXT_EXT; len; payload] at `offset`, and its id is stored at
+   `next_ext_pos`: byte 1 of the fixed header for the first block, and (`next_ext_pos = offset`
+   after each block) the `next` byte of the preceding block otherwise.  So block k carries the
+   id of block k+1 in its `next` byte, the last one NO_NEXT_EXT: the BEP-29 chain. *)
+Fixpoint chain_bytes (exts : list ext) : list Z :=
   match exts with
   | [] => []
-  | (_, p) :: rest =>
-      NO_NEXT_EXT
-      :: match rest with [] => Zlength p mod 256 | (id', _) :: _ => id' end
-      :: p ++ ser_chain_bytes rest
+  | (_, p) :: rest => first_id rest :: (Zlength p mod 256) :: p ++ chain_bytes rest
   end.
 
 (* the 20 fixed bytes; typever = (type << 4) | 1 *)
@@ -129,13 +123,16 @@ Definition fixed_bytes (t : ptype) (first conn ts tsdiff wnd seq ack : Z) : list
   [type_to_number t * 16 + 1; first] ++ be16 conn ++ be32 ts ++ be32 tsdiff ++ be32 wnd ++
   be16 seq ++ be16 ack.
 
+(* fixed header followed by a chain of extensions (also the generic BEP-29 encoder used by the
+   specification side, for arbitrary extension lists) *)
+Definition encode_packet (h : header) (exts : list ext) : list Z :=
+  fixed_bytes (h_type h) (first_id exts) (h_conn h) (h_ts h) (h_tsdiff h) (h_wnd h) (h_seq h)
+    (h_ack h) ++ chain_bytes exts.
+
 (* None = Err(SerializeTooSmallBuffer) *)
 Definition serialize (h : header) (buflen : Z) : option (list Z) :=
   if buflen <? UTP_HEADER then None
-  else
-    let exts := fst (ser_exts h buflen) in
-    Some (fixed_bytes (h_type h) (first_id exts) (h_conn h) (h_ts h) (h_tsdiff h) (h_wnd h)
-            (h_seq h) (h_ack h) ++ ser_chain_bytes exts).
+  else Some (encode_packet h (fst (ser_exts h buflen))).
 
 (* the offset returned with a buffer that is large enough *)
 Definition ser_len (h : header) : Z :=
@@ -253,22 +250,6 @@ Definition wf_packet (bs : list Z) (h : header) (n : Z) : Prop :=
     h_seq h = of_be16 (nth 16 bs 0) (nth 17 bs 0) /\
     h_ack h = of_be16 (nth 18 bs 0) (nth 19 bs 0) /\
     h_ext h = apply_exts exts no_ext.
-
-(* generic BEP-29 encoder (specification side): fixed header followed by an arbitrary chain of
-   extensions; block k carries the id of block k+1 in its `next` byte and its own length *)
-Fixpoint chain_bytes (exts : list ext) : list Z :=
-  match exts with
-  | [] => []
-  | (_, p) :: rest => first_id rest :: (Zlength p mod 256) :: p ++ chain_bytes rest
-  end.
-Definition encode_packet (h : header) (exts : list ext) : list Z :=
-  fixed_bytes (h_type h) (first_id exts) (h_conn h) (h_ts h) (h_tsdiff h) (h_wnd h) (h_seq h)
-    (h_ack h) ++ chain_bytes exts.
-
-(* at most one of the two extensions is present (all that the library itself ever sends:
-   it never sets close_reason) *)
-Definition single_extb (h : header) : bool :=
-  match e_sack (h_ext h), e_close (h_ext h) with Some _, Some _ => false | _, _ => true end.
 
 (* decision procedure for ext_chain: the list of triples, or None if the chain does not fit *)
 Fixpoint split_chain (fuel : nat) (id : Z) (buf : list Z) : option (list ext) :=
